@@ -351,6 +351,10 @@ func Lineage(h *History, results []Result, i int) []Op {
 	for _, sg := range segs {
 		for j := sg.from; j < sg.upto && j < len(h.Ops); j++ {
 			op := h.Ops[j]
+			if op.Kind == "new" && Frozen(h, results, j) {
+				// New on a set that has been executed leaves the set as it is
+				continue
+			}
 			if op.Set == sg.set && IsDef(op.Kind) && j < len(results) && results[j].Err == "" && !results[j].Nil && results[j].Panic == "" {
 				if op.Via == "" {
 					op.Via = RootVia(h, results, op.Set)
@@ -360,6 +364,16 @@ func Lineage(h *History, results []Result, i int) []Op {
 		}
 	}
 	return out
+}
+
+// Frozen reports whether the set that step i acts on has been executed (successfully or not) before step i.
+func Frozen(h *History, results []Result, i int) bool {
+	for k := 0; k < i && k < len(results); k++ {
+		if h.Ops[k].Set == h.Ops[i].Set && IsExec(h.Ops[k].Kind) && !results[k].Nil {
+			return true
+		}
+	}
+	return false
 }
 
 // RootVia returns the name under which the root handle of a set is found in a fresh set: "" for the original
@@ -470,6 +484,36 @@ var fixedHelpers = map[string]string{
 	// recursion inside an attribute value in which every level joins branches that end in differently named attributes
 	"qn":   `{{if .C}}x" title="{{else}}y" alt="{{end}}{{with .Next}}{{template "qn" .}}{{end}}`,
 	"item": `{{if .V}}<li>{{.V}}</li>{{end}}{{with .Next}}{{template "item" .}}{{end}}`,
+	// pieces for the sibling pairs below
+	"hu":  `/{{.V}}`,
+	"hcs": `script:{{.V}}`,
+	"up":  `../`,
+	"cl":  `>`,
+	"rl":  `icon" href="{{.U}}"`,
+	"hi":  `<li>{{.V}}</li>`,
+	"hj":  `if (a < b) f()`,
+}
+
+// siblingPairs: two members that need the same helper in situations the engine has to tell apart although they are
+// of the same kind (good body, second body, failure category of the second body: "" = none, "runtime" = analysis
+// succeeds and the execution fails with a string where a typed value is needed). What the second member does must not
+// depend on whether the first was executed before (sixth bug-hunt round: F-openprefix, F-rederive, F-reentryview,
+// F-attrsplitcall).
+var siblingPairs = [][3]string{
+	{`<script src="https://static.example.com{{template "hu" .}}"></script>`, `<script src="https:/{{template "hu" .}}"></script>`, "open-prefix-call"},
+	{`<a href="/x/java{{template "hcs" .}}">x</a>`, `<a href="java{{template "hcs" .}}">x</a>`, "open-prefix-call"},
+	{`<a href="/s/{{template "hv" .}}">x</a>`, `<a href="/s/.%2{{template "hv" .}}">x</a>`, "open-prefix-call"},
+	{`<a href="/s/{{template "hv" .}}">x</a>`, `<a href="/s/&#x2{{template "hv" .}}">x</a>`, "open-prefix-call"},
+	{`<p style="color:{{template "hss" .}}">x</p>`, `<p style="color:&#x{{template "hss" .}}">x</p>`, "open-prefix-call"},
+	{`<link rel="{{template "rl" .}}>`, `<link rel="stylesheet {{template "rl" .}}>`, "runtime"},
+	{`<a href="/base/{{template "up"}}">y</a>`, `<a href="{{range .L}}{{template "up"}}{{template "up"}}{{end}}index.html">x</a>`, ""},
+	{`<my-list>{{range .L}}{{template "hi" $}}{{end}}</my-list>`, `<my-list class="wide">{{range .L}}{{template "hi" $}}{{end}}</my-list>`, ""},
+	{`<a href="?q={{range .L}}{{template "hv" $}}&amp;q={{end}}">a</a>`, `<a href="{{range .L}}?q={{template "hv" $}}{{end}}">b</a>`, ""},
+	{`<p>{{template "hv" .}}</p>`, `<option selec{{if .C}}{{end}}ted{{template "cl" .}}{{template "hv" .}}</option>`, ""},
+	{`<p>{{template "hv" .}}</p>`, `<a href="{{template "hv" .}}">x</a>`, ""},
+	{`<p>{{template "hv" .}}</p>`, `<textarea>{{template "hv" .}}</textarea><p title="{{template "hv" .}}">y</p>`, ""},
+	{`<p>{{template "ht"}}</p>`, `<p title="{{template "ht"}}">x</p>`, ""},
+	{`<p>{{template "hj"}}</p>`, `<script>{{template "hj"}}</script>`, ""},
 }
 
 // NoDirect reports whether a template name must only be reached through callers.
@@ -523,6 +567,17 @@ var badBodies = map[string][]string{
 	"predefined-escaper":    {`{{.V | html | print}}`, `<a title={{.V | html}}>`},
 	"js-template":           {"<script>var a = `x</script>", "<script>`${</script>"},
 	"enum-partial":          {`<a target="x{{.V}}">`},
+	// the static text in front of a CALL is what makes the action of the called template unacceptable; "pok" needs
+	// the same helper after an acceptable text of the same class and is executed first (CategoryHistory)
+	"open-prefix-call": {
+		`{{define "pu"}}/{{.V}}{{end}}{{define "pok"}}<script src="https://static.example.com{{template "pu" .}}"></script>{{end}}|||<script src="https:/{{template "pu" .}}"></script>`,
+		`{{define "pcs"}}script:{{.V}}{{end}}{{define "pok"}}<a href="/x/java{{template "pcs" .}}">x</a>{{end}}|||<a href="java{{template "pcs" .}}">x</a>`,
+		`{{define "pv"}}{{.V}}{{end}}{{define "pok"}}<a href="/s/{{template "pv" .}}">x</a>{{end}}|||<a href="/s/.%2{{template "pv" .}}">x</a>`,
+		`{{define "pv"}}{{.V}}{{end}}{{define "pok"}}<a href="/s/{{template "pv" .}}">x</a>{{end}}|||<a href="/s/&#x2{{template "pv" .}}">x</a>`,
+		`{{define "pv"}}{{.V}}{{end}}{{define "pok"}}<a href="/s/{{template "pv" .}}">x</a>{{end}}|||<a href="/s/&am{{template "pv" .}}">x</a>`,
+		`{{define "pv"}}{{.V}}{{end}}{{define "pok"}}<a href="/s/{{template "pv" .}}">x</a>{{end}}|||<a href="/s /{{template "pv" .}}">x</a>`,
+		`{{define "pss"}}{{.SS}}{{end}}{{define "pok"}}<p style="color:{{template "pss" .}}">x</p>{{end}}|||<p style="color:&#x{{template "pss" .}}">x</p>`,
+	},
 }
 
 // BadCategories lists the categories (deterministic order).
@@ -562,7 +617,8 @@ type Options struct {
 	MaxOps       int
 	BadMembers   bool // include members whose analysis fails (C05, C08)
 	RuntimeBad   bool // include members that fail at run time after partial output
-	MixedHelpers bool // allow a helper to be called from text and attribute contexts (K-rederive zone)
+	NoSiblings   bool // no sibling pairs (members that need one helper after different static texts / in different context classes)
+	MixedHelpers bool // allow a helper to be called from text and attribute contexts, and fixed helpers to be executed on their own (the former K-rederive zone)
 	Clones       bool // clone ops
 	ParseAfter   bool // definition ops after executions (must fail)
 	FileOps      bool // ParseFiles / ParseGlob / ParseFS entry points
@@ -623,6 +679,12 @@ func Gen(t *rapid.T, o Options) *History {
 	for _, k := range fks {
 		text.WriteString(define(k, fixedHelpers[k]))
 	}
+	if o.MixedHelpers && g.n(0, 2, "directfixed") == 0 {
+		// the fixed helpers may be executed on their own as well (a text-context use of a helper that members need
+		// in other contexts: since F-rederive the order must not matter)
+		g.names[0] = append(g.names[0], fks...)
+		g.flagf("fixed-helpers-direct")
+	}
 	nh := g.n(1, 2, "nhelpers")
 	for i := 0; i < nh; i++ {
 		name := fmt.Sprintf("h%d", i)
@@ -675,6 +737,26 @@ func Gen(t *rapid.T, o Options) *History {
 			}
 		case k <= 2:
 			add(name, g.pick("good", goodBodies))
+		case k == 3 && !o.NoSiblings:
+			pair := siblingPairs[g.n(0, len(siblingPairs)-1, "pair")]
+			if pair[2] == "runtime" && !o.RuntimeBad {
+				pair = siblingPairs[len(siblingPairs)-1]
+			}
+			add(name, pair[0])
+			sn := name + "s"
+			switch pair[2] {
+			case "":
+				add(sn, pair[1])
+			case "runtime":
+				add(sn, pair[1])
+				g.h.RuntimeBad = append(g.h.RuntimeBad, sn)
+				g.flagf("runtime-bad")
+			default:
+				add(sn, `{{mark "`+sn+`"}}`+pair[1])
+				g.bad[sn] = pair[2]
+				g.flagf("bad:" + pair[2])
+			}
+			g.flagf("sibling-pair")
 		case k <= 6:
 			hc := g.pick("helper", g.helpers)
 			hn, ctx := hc[:strings.Index(hc, ":")], hc[strings.Index(hc, ":")+1:]
@@ -880,6 +962,9 @@ func CategoryHistory(cat string, bi int, kind string, csp bool) History {
 			return Op{Kind: kind, Via: name, Data: d}
 		}
 		return Op{Kind: kind, Target: name, Data: d}
+	}
+	if cat == "open-prefix-call" {
+		h.Ops = append(h.Ops, call("pok"))
 	}
 	h.Ops = append(h.Ops, call("m0"), call("g"), call("m0c"), call("m0"), Op{Kind: "lookup", Target: "m0"}, call("m0c"), call("g"))
 	return h
